@@ -131,6 +131,7 @@ func (g *Gen) specialCall(fr *Frame, st *State, site ssa.Instruction, c *ssa.Cal
 		if args[1].Ptr != nil {
 			g.havocPtr(st, args[1].Ptr)
 		}
+		g.vc.assume("", fmt.Sprintf("(=> (= %s 0) (not (p$errAs %s %d)))", args[0].T, args[0].T, tag)) // errors.As(nil, _) is false
 		return Val{T: fmt.Sprintf("(p$errAs %s %d)", args[0].T, tag), S: "Bool", Ty: types.Typ[types.Bool]}, true
 	case "errors.Is":
 		g.declIs()
